@@ -53,7 +53,7 @@ def strategy(draw, tier):
     return {'fs': band['fs'], 'f_range': band['f_range'], 'sigs': sigs, 'mode': mode, 'opts': opts, 'n_jobs': n_jobs,
             'delays': delays if not big else [0] * rows, 'progress': draw(st.sampled_from([None, None, 'tqdm'])),
             'return_samples': draw(st.sampled_from([True, True, False])), 'rs_in_dict': draw(st.sampled_from([None, None, True, False])),
-            'via': draw(st.sampled_from(['func', 'group']))}
+            'via': draw(st.sampled_from(['func', 'group'])), 'layout': draw(st.sampled_from(['C', 'C', 'C', 'F']))}
 
 
 def check(case, rec):
@@ -62,6 +62,8 @@ def check(case, rec):
         raise RuntimeError('multiprocessing start method is not fork')
     fs, fr = case['fs'], tuple(case['f_range'])
     X = np.array([gen.render_signal(s) for s in case['sigs']])
+    if case.get('layout') == 'F':
+        X = np.asfortranarray(X)            # same values and shape, column-major memory
     rows = len(X)
     mode, opts = case['mode'], case['opts']
     per_row = [opts[i] if mode == 'list' else opts for i in range(rows)]
@@ -125,7 +127,7 @@ def check(case, rec):
     differing_opts = mode == 'list' and any(per_row[i] != per_row[0] for i in range(rows))
     rec.label('rows:%s' % (rows if rows < 7 else '>=8'), 'mode:' + mode, 'n_jobs:%s' % ('-1' if case['n_jobs'] == -1 else ('1' if nj == 1 else ('>=rows' if nj >= rows else '2..rows-1'))),
               'reordered-completion' if reordered else 'in-order', 'via:' + via, 'progress:%s' % case['progress'],
-              'samples:%s' % rs, 'distinct-rows' if distinct else 'duplicate-tables')
+              'samples:%s' % rs, 'layout:%s' % case.get('layout', 'C'), 'distinct-rows' if distinct else 'duplicate-tables')
     rec.nontrivial(rows >= 2 and distinct and (reordered or differing_opts))
 
 
